@@ -297,6 +297,18 @@ theorem more_outputs_irrelevant (S : Sem Val) (prog : List PNode) (hwf : WF prog
   simp only [Option.map_some, denoteG, List.getElem?_map]
   rw [hij]
 
+/-- The default build and the `drop_unused_inputs=True` build over the same program (the harness makes both
+    over the same Python objects): any accepted emission of each, the second fed only the used inputs, return
+    the same outputs. -/
+theorem default_and_drop_builds_agree (S : Sem Val) (prog : List PNode) (hwf : WF prog) (e e' : EGraph)
+    (main : PGraph) (hv : validG prog e main [] = true)
+    (hv' : validG prog e' (dropUnused prog main) [] = true) (vals : List Val) :
+    evalG S prog e' (fun _ => none)
+        (usedVals (needed prog (main.results.map (·.node))).contains main.args vals)
+      = evalG S prog e (fun _ => none) vals := by
+  rw [drop_unused_inputs_sound S prog hwf e' main hv' (fun _ => default) vals,
+      valid_sound S prog hwf e main hv (fun _ => default) vals]
+
 /-! ## Tie G: every way to build that the source offers is one the check exercises -/
 
 /-- The `to_onnx_model` options the harness varies (`TO_MODEL_KW` in `harness/props/c01.py`; the harness
@@ -613,5 +625,17 @@ example (b c x y : Int) :
     [0, 1, 2, 3] [3, 2, 1, 0] [⟨7, 0⟩] [⟨4, 0⟩, ⟨7, 0⟩] _ _ (by decide) (by decide)
     [b, c, x, y] [y, x, c, b] rfl rfl (by decide)
     (List.reverse_perm [(3, y), (2, x), (1, c), (0, b)]) 0 1 rfl
+
+/-- the default build of `deepU` (all five inputs listed) and its drop build agree -/
+def deepUDefault : EGraph :=
+  match deepUDropped with
+  | .mk _ body res => .mk [0, 1, 2, 3, 4] body res
+example : validG deepU.nodes deepUDefault deepU.main [] = true := by decide
+example (vals : List Int) :
+    evalG exSem deepU.nodes deepUDropped (fun _ => none)
+        (usedVals (needed deepU.nodes (deepU.main.results.map (·.node))).contains deepU.main.args vals)
+      = evalG exSem deepU.nodes deepUDefault (fun _ => none) vals :=
+  default_and_drop_builds_agree exSem deepU.nodes (wfCheck_sound _ (by decide)) _ _ deepU.main
+    (by decide) (by decide) vals
 
 end C01
